@@ -117,6 +117,12 @@ Definition order_std : list dsource := [SManual; SSubgroup; SParentDefaults; SFi
 Lemma order_is_std : default_sources_gen = order_std.
 Proof. reflexivity. Qed.
 
+Definition dv_std : list dvsrc := [DvDefault; DvFactory].
+Lemma default_value_sources_std : default_value_sources_gen = dv_std.
+Proof. reflexivity. Qed.
+Lemma dvalues_std cn cfs nd : dvalues dv_std cn cfs nd = [default_value cn cfs nd].
+Proof. destruct nd; reflexivity. Qed.
+
 Definition is_inst (D : vt) : Prop := exists cn vals, D = VD cn vals.
 
 Lemma norm_manual_spec v : norm_manual v = None /\ v = VNone \/ norm_manual v = Some v /\ v <> VNone.
@@ -264,14 +270,14 @@ Section Plain.
   (* under an Optional member that is None, every leaf argument equals its default: the member comes back None *)
   Lemma leaves_at_default_none cfs :
     forallb wf_fld cfs = true ->
-    leaves_at_default order_std cached cfs (map (run_fld g0 order_std cached None [vnone]) cfs) None [vnone] = true.
+    leaves_at_default order_std cached cfs (map (run_fld g0 order_std cached dv_std None [vnone]) cfs) None [vnone] = true.
   Proof.
     induction cfs as [|g r IH]; intros W; [reflexivity|].
     cbn [forallb] in W. apply andb_true_iff in W as [Wg Wr]. destruct g as [n t d fac|n opt cn cfs nd].
     - cbn [map run_fld leaves_at_default]. rewrite default_under_none.
       cbn [wf_fld] in Wg. apply andb_true_iff in Wg as [C T]. rewrite (postprocess_default_id t d C T).
       cbn [vt_eqb]. rewrite value_eqb_refl. cbn [andb]. now apply IH.
-    - cbn [map leaves_at_default]. destruct (run_fld g0 order_std cached None [vnone] (FNest n opt cn cfs nd)). now apply IH.
+    - cbn [map leaves_at_default]. destruct (run_fld g0 order_std cached dv_std None [vnone] (FNest n opt cn cfs nd)). now apply IH.
   Qed.
 
   Lemma guard_none_vnone : guard_none g0 None [vnone] = true.
@@ -281,7 +287,7 @@ Section Plain.
   Lemma run_fld_inst : forall g has_wd D x,
     is_inst D -> wf_fld g = true -> wf_inst_fld g x = true -> attr D (fname g) = x ->
     shape3_free_fld g0 has_wd (Some D) g = true ->
-    run_fld g0 order_std cached (wdof has_wd D) [D] g = (fname g, x).
+    run_fld g0 order_std cached dv_std (wdof has_wd D) [D] g = (fname g, x).
   Proof.
     induction g as [n t d fac|n opt cn cfs nd IH] using fld_ind'; intros has_wd D x I W WI A S3.
     - cbn [run_fld fname] in *. rewrite (leaf_default_inst has_wd n d fac D I), A.
@@ -302,7 +308,7 @@ Section Plain.
         apply andb_true_iff in S3 as [S3a S3c].
         assert (IX : is_inst (VD cn vals)) by (now exists cn, vals).
         assert (V : forall hw, hw = has_wd ->
-                  map (run_fld g0 order_std cached (wdof hw (VD cn vals)) [VD cn vals]) cfs = vals).
+                  map (run_fld g0 order_std cached dv_std (wdof hw (VD cn vals)) [VD cn vals]) cfs = vals).
         { intros hw ->. apply map_pointwise; [now apply wf_attrs_length|].
           intros g [m y] Hin. destruct (attr_at cn cfs vals g m y WA ND Hin) as [At [-> Wy]].
           apply (Forall_combine_l _ _ _ _ _ IH Hin); auto.
@@ -321,7 +327,7 @@ Section Plain.
   Lemma run_fields_inst fs has_wd cn vals :
     forallb wf_fld fs = true -> NoDup (map fname fs) -> wf_attrs fs vals = true ->
     forallb (shape3_free_fld g0 has_wd (Some (VD cn vals))) fs = true ->
-    run_fields g0 order_std cached fs (wdof has_wd (VD cn vals)) [VD cn vals] = vals.
+    run_fields g0 order_std cached dv_std fs (wdof has_wd (VD cn vals)) [VD cn vals] = vals.
   Proof.
     intros W ND WA S3. unfold run_fields. apply map_pointwise; [now apply wf_attrs_length|].
     intros g [m y] Hin. destruct (attr_at cn fs vals g m y WA ND Hin) as [At [-> Wy]].
@@ -334,18 +340,18 @@ Section Plain.
   (* a wrapper with no default instance anywhere above it: the constructor's own value *)
   Lemma run_fld_construct g :
     wf_fld g = true -> shape3_free_fld g0 false None g = true ->
-    run_fld g0 order_std cached None [] g = construct_fld g.
+    run_fld g0 order_std cached dv_std None [] g = construct_fld g.
   Proof.
     destruct g as [n t d fac|n opt cn cfs nd]; intros W S3.
     - cbn [run_fld construct_fld]. rewrite default_from_field.
       cbn [wf_fld] in W. apply andb_true_iff in W as [C T]. now rewrite (postprocess_default_id t d C T).
     - destruct (wf_fld_nest _ _ _ _ _ W) as [Wc [ND Wd]].
-      cbn [run_fld construct_fld child_default child_defaults]. cbn [shape3_free_fld] in S3.
+      cbn [run_fld construct_fld child_default child_defaults]. rewrite dvalues_std. cbn [shape3_free_fld] in S3.
       assert (K : forall vals, default_value cn cfs nd = VD cn vals -> wf_attrs cfs vals = true ->
                   (if opt && guard_none g0 None [VD cn vals]
                       && leaves_at_default order_std cached cfs
-                           (map (run_fld g0 order_std cached None [VD cn vals]) cfs) None [VD cn vals]
-                   then vnone else VD cn (map (run_fld g0 order_std cached None [VD cn vals]) cfs)) = VD cn vals).
+                           (map (run_fld g0 order_std cached dv_std None [VD cn vals]) cfs) None [VD cn vals]
+                   then vnone else VD cn (map (run_fld g0 order_std cached dv_std None [VD cn vals]) cfs)) = VD cn vals).
       { intros vals E WA. rewrite E in S3. cbn [some_inst is_vnone] in S3. apply andb_true_iff in S3 as [S3a S3c].
         pose proof (run_fields_inst cfs false cn vals Wc ND WA S3c) as R. unfold run_fields in R. cbn [wdof] in R. rewrite R.
         cbn [orb] in S3a. apply orb_true_iff in S3a as [O|G].
@@ -361,14 +367,14 @@ Section Plain.
 
   Lemma run_fields_construct fs :
     forallb wf_fld fs = true -> forallb (shape3_free_fld g0 false None) fs = true ->
-    run_fields g0 order_std cached fs None [] = construct_fields fs.
+    run_fields g0 order_std cached dv_std fs None [] = construct_fields fs.
   Proof.
     intros W S3. unfold run_fields, construct_fields. apply map_ext_in. intros g Hin.
     rewrite forallb_forall in W, S3. now apply run_fld_construct; [apply W | apply S3].
   Qed.
 
   Theorem parse_plain_meets f :
-    wf_forest f = true -> shape3_free g0 f = true -> parse_plain g0 order_std cached f = spec_C01 f.
+    wf_forest f = true -> shape3_free g0 f = true -> parse_plain g0 order_std cached dv_std f = spec_C01 f.
   Proof.
     unfold wf_forest, shape3_free, parse_plain, spec_C01. intros W S3. apply andb_true_iff in W as [_ W].
     apply map_ext_in. intros [[d c] i] Hin. rewrite forallb_forall in W, S3.
@@ -512,19 +518,29 @@ Proof.
     destruct (is_seq_ty t); cbn; rewrite Hl, Nat.eqb_refl; reflexivity.
 Qed.
 
+(* the final chain of duplicate_if_needed, as regenerated *)
+Definition dup_std : list (len_test * dup_act) := [(LenEqN, DAsIs); (LenEqOne, DTimesN)].
+Lemma dup_chain_std : dup_chain_gen = dup_std /\ dup_else_gen = DInconsistent.
+Proof. split; reflexivity. Qed.
+
+Lemma list_times_single {A} (x : A) k : list_times [x] k = repeat x k.
+Proof. induction k as [|k IH]; [reflexivity | cbn; now rewrite IH]. Qed.
+Lemma concat_repeat_single {A} (x : A) k : List.concat (repeat [x] k) = repeat x k.
+Proof. induction k as [|k IH]; [reflexivity | cbn; now rewrite IH]. Qed.
+
 Lemma duplicate_list t k l :
-  2 <= k -> List.length l = k -> duplicate_if_needed t (VList l) k = Ok l.
+  2 <= k -> List.length l = k -> duplicate_if_needed dup_std DInconsistent t (VList l) k = Ok l.
 Proof.
   intros Hk Hl. destruct l as [|a [|b r]]; cbn [List.length] in Hl; try lia. subst k.
-  unfold duplicate_if_needed.
+  unfold duplicate_if_needed, dup_std.
   destruct (negb (is_tuple_ty t) && negb (is_list_ty t)); cbv iota beta; now rewrite Nat.eqb_refl.
 Qed.
 
-Lemma duplicate_none t k : 2 <= k -> duplicate_if_needed t VNone k = Ok (repeat VNone k).
+Lemma duplicate_none t k : 2 <= k -> duplicate_if_needed dup_std DInconsistent t VNone k = Ok (repeat VNone k).
 Proof.
-  intros Hk. unfold duplicate_if_needed. cbn [List.length].
-  assert (E : Nat.eqb 1 k = false) by (apply Nat.eqb_neq; lia). rewrite E.
-  destruct (negb (is_tuple_ty t) && negb (is_list_ty t)); reflexivity.
+  intros Hk. unfold duplicate_if_needed, dup_std. cbn [List.length].
+  assert (E : Nat.eqb 1 k = false) by (apply Nat.eqb_neq; lia).
+  destruct (negb (is_tuple_ty t) && negb (is_list_ty t)); cbv iota beta; rewrite E; cbn [Nat.eqb]; now rewrite list_times_single.
 Qed.
 
 Lemma nth_repeat_lt {A} (a d : A) k i : i < k -> nth i (repeat a k) d = a.
@@ -596,7 +612,7 @@ Section Uniform.
   Lemma uni_fld_inst : forall g defs,
     List.length defs = k -> Forall is_inst defs -> wf_fld g = true -> has_optional_fld g = false ->
     (forall D, In D defs -> wf_inst_fld g (attr D (fname g)) = true) ->
-    uni_fld order_std chain k i defs g = Ok (fname g, attr (nth i defs vnone) (fname g)).
+    uni_fld order_std chain dv_std dup_std DInconsistent k i defs g = Ok (fname g, attr (nth i defs vnone) (fname g)).
   Proof.
     induction g as [n t d fac|n opt cn cfs nd IH] using fld_ind'; intros defs L I W O WD.
     - cbn [uni_fld fname] in *. unfold uni_leaf.
@@ -613,7 +629,7 @@ Section Uniform.
     - destruct (wf_fld_nest _ _ _ _ _ W) as [Wc [ND _]].
       cbn [has_optional_fld] in O. apply orb_false_iff in O as [-> Oc].
       cbn [uni_fld fname] in *.
-      assert (NE : match defs with [] => repeat (default_value cn cfs nd) k | _ :: _ => map (fun D => attr D n) defs end
+      assert (NE : match defs with [] => List.concat (repeat (dvalues dv_std cn cfs nd) k) | _ :: _ => map (fun D => attr D n) defs end
                    = map (fun D => attr D n) defs) by (destruct defs; [cbn in L; lia | reflexivity]).
       rewrite NE. clear NE. set (cdefs := map (fun D => attr D n) defs).
       (* every member default is an instance of cn with well-formed attributes *)
@@ -643,7 +659,7 @@ Section Uniform.
   (* no destination was given a default instance: every destination gets the constructor's value *)
   Lemma uni_fld_construct g :
     wf_fld g = true -> has_optional_fld g = false -> pk_repaired chain || leaf_not_dealt g = true ->
-    uni_fld order_std chain k i [] g = Ok (construct_fld g).
+    uni_fld order_std chain dv_std dup_std DInconsistent k i [] g = Ok (construct_fld g).
   Proof.
     destruct g as [n t d fac|n opt cn cfs nd]; intros W O ND.
     - cbn [uni_fld construct_fld]. unfold uni_leaf.
@@ -658,6 +674,7 @@ Section Uniform.
         now rewrite (postprocess_default_id t d C T).
     - destruct (wf_fld_nest _ _ _ _ _ W) as [Wc [NDn Wd]].
       cbn [has_optional_fld] in O. apply orb_false_iff in O as [-> Oc]. cbn [uni_fld construct_fld].
+      rewrite dvalues_std, concat_repeat_single.
       assert (DV : exists vals, default_value cn cfs nd = VD cn vals /\ wf_attrs cfs vals = true
                                 /\ match nd with DFac => VD cn (map construct_fld cfs) | DNone => vnone | DInst i0 => i0 end = VD cn vals).
       { destruct nd as [| |i0].
@@ -697,9 +714,9 @@ Qed.
 
 Lemma uniform_go_ok chain k c defs : forall l i,
   (forall j d ce De, nth_error l j = Some (d, ce, De) ->
-     exists fs, uni_fields order_std chain k (i + j) (snd c) defs = Ok fs
+     exists fs, uni_fields order_std chain dv_std dup_std DInconsistent k (i + j) (snd c) defs = Ok fs
                 /\ VD (fst c) fs = match De with Some D => D | None => construct ce end) ->
-  uniform_go order_std chain k c defs i l = Ok (spec_C01 l).
+  uniform_go order_std chain dv_std dup_std DInconsistent k c defs i l = Ok (spec_C01 l).
 Proof.
   induction l as [|[[d ce] De] r IH]; intros i H; [reflexivity|].
   cbn [uniform_go]. destruct (H 0 d ce De eq_refl) as [fs [E1 E2]]. rewrite Nat.add_0_r in E1. rewrite E1.
@@ -716,7 +733,7 @@ Theorem parse_uniform_meets chain c e0 e1 r :
   (forall e : entry, In e f -> is_some (snd e) = is_some (snd e0)) ->
   has_optional (snd c) = false ->
   no_dealt chain f = true ->
-  parse_uniform order_std chain c f = Ok (spec_C01 f).
+  parse_uniform order_std chain dv_std dup_std DInconsistent c f = Ok (spec_C01 f).
 Proof.
   intros Hc f W SC SD NO NDl. subst f. remember (e0 :: e1 :: r) as f eqn:Ef. unfold parse_uniform.
   assert (Hk : 2 <= List.length f) by (rewrite Ef; cbn; lia).
@@ -813,20 +830,23 @@ Lemma sp_unfold c f : api_ok c f = true ->
   match p_mode c with
   | MPlain m => match resolve_gen (option_strings (p_cfg c)) m (forest_fws f) with
                 | Err e => Err e
-                | Ok _ => Ok (parse_plain guard_gen order_std factory_cached_gen f)
+                | Ok _ => Ok (parse_plain guard_gen order_std factory_cached_gen dv_std f)
                 end
   | MMerge => if uniform_scope max_attempts_gen f then
                 if same_field_clashes (p_cfg c) then
                   match f with
-                  | [_] => Ok (parse_plain guard_gen order_std factory_cached_gen f)
-                  | (_, c0, _) :: _ => parse_uniform order_std pk_chain_gen c0 f
+                  | [_] => Ok (parse_plain guard_gen order_std factory_cached_gen dv_std f)
+                  | (_, c0, _) :: _ => parse_uniform order_std pk_chain_gen dv_std dup_std DInconsistent c0 f
                   | [] => Ok []
                   end
-                else Ok (parse_plain guard_gen order_std factory_cached_gen f)
+                else Ok (parse_plain guard_gen order_std factory_cached_gen dv_std f)
               else parse_merge_gen (option_strings (p_cfg c)) f
   end.
 Proof.
-  intros A. unfold sp_parse_empty_gen, sp_parse_empty. rewrite A. destruct (p_api c); reflexivity.
+  intros A. unfold sp_parse_empty_gen, sp_parse_empty.
+  change pipeline_std_gen with true. change forwards_default_gen with true. cbv beta iota zeta. cbn [negb].
+  rewrite A. change (resets_self merge_resets_gen) with true. change init_caches_gen with true. rewrite !andb_true_r.
+  destruct (p_api c); reflexivity.
 Qed.
 
 Theorem empty_defaults_partial c f :
@@ -974,6 +994,19 @@ Proof. intros M. unfold side_ok_gen, side_ok. now rewrite M. Qed.
 
 Theorem no_dealt_repaired chain f : pk_repaired chain = true -> no_dealt chain f = true.
 Proof. intros P. unfold no_dealt. now rewrite P. Qed.
+
+(* the shapes of the code sites the model relies on, as regenerated from the source on this run (an edit of one of these sites
+   changes the regenerated constant or makes the translator fail closed: this lemma, and sp_unfold, then no longer hold) *)
+Definition post_arms_std : list post_arm :=
+  [PaEnumByName; PaChoiceDict; PaTupleOfSeq; PaBoolId; PaListOfTuple; PaSubparserId; PaOptTupleOfList; PaCallType].
+Theorem code_shapes :
+  default_sources_gen = order_std /\ default_value_sources_gen = dv_std
+  /\ dup_chain_gen = dup_std /\ dup_else_gen = DInconsistent
+  /\ merge_resets_gen = MrSelf /\ init_caches_gen = true
+  /\ forwards_default_gen = true /\ pipeline_std_gen = true
+  /\ postprocess_arms_gen = post_arms_std          (* Model/Leaf.v postprocess hard-codes these arm bodies, in this order *)
+  /\ deepest_first_gen = true /\ parse_is_parser_gen = true /\ merge_rest_sorted_gen = false.
+Proof. repeat split; reflexivity. Qed.
 
 (* non-vacuity *)
 Definition cls_NV : dcls :=
